@@ -224,7 +224,8 @@ PROPS = {
         'replay': 'c09.py',
         'extra': [('bounded:master-histories', bounded_replay('c09.py', 'C09', 'Master/Loader histories vs /placement', 250, 12000))],
         'functions': ['treadmill.scheduler.master:Master._placement_data', 'treadmill.scheduler.master:Master.init_schedule',
-                      'treadmill.scheduler.master:Master._unschedule_evicted', 'treadmill.scheduler.master:Master.reschedule',
+                      'treadmill.scheduler.master:Master._unschedule_evicted', 'treadmill.scheduler.master:Master._save_placement',
+                      'treadmill.scheduler.master:Master.reschedule',
                       'treadmill.scheduler.master:Master.remove_app',
                       'treadmill.scheduler.loader:Loader.restore_placement'],
         'assumptions': [
@@ -252,9 +253,9 @@ PROPS = {
             'run-time Loader.reload_server / restore_placement path are NOT proved to preserve it (known findings: entries '
             'left under a removed server; a reloaded server re-places its instances with a new expiry and the entries are '
             'not refreshed)',
-            'Master._update_task (trace event files) and Master._save_placement (compressed reference copy in the node '
-            '/placement itself) are assumed not to touch /placement/<server>/<instance>; identity_count in the payload is '
-            'not part of the statement',
+            'Master._update_task (trace event files on the local disk) is assumed not to touch the store; Master._save_placement '
+            '(compressed reference copy in the node /placement itself) is under contract: no /placement/<server>/<instance> entry '
+            'changes; identity_count in the payload is not part of the statement',
             'BOUNDED stand-in (labelled bounded): replay/c09.py drives the real Master / Loader over an in-memory backend '
             'through random ZooKeeper-level histories with crash injection and fail-over and compares the whole /placement '
             'tree (existence and content) with the model after every cycle; server-record deletion and run-time server '
@@ -264,7 +265,8 @@ PROPS = {
     'C10': {
         'contract_modules': ['c09_master', 'c11_loader'],
         'functions': ['treadmill.scheduler.master:Master.init_schedule',
-                      'treadmill.scheduler.master:Master._unschedule_evicted', 'treadmill.scheduler.master:Master.reschedule',
+                      'treadmill.scheduler.master:Master._unschedule_evicted', 'treadmill.scheduler.master:Master._save_placement',
+                      'treadmill.scheduler.master:Master.reschedule',
                       'treadmill.scheduler.master:Master.remove_app', 'treadmill.scheduler.loader:Loader.restore_placement'],
         'replay': 'c09.py',
         'extra': [('bounded:master-crash-histories', bounded_replay('c09.py', 'C10', 'Master/Loader histories with crash points', 250, 12000))],
